@@ -21,6 +21,11 @@ ALL_FORMS = [
     "__all__ = []\n__all__ += ['{a}', '{b}']\n",
     "__all__ = ['{a}']\n__all__ = ['{a}', '{b}']\n",
     "__all__ = ['{a}', '{b}', 'not_defined_anywhere']\n",
+    "if len('x') == 1:\n    __all__ = ['{a}', '{b}']\nelse:\n    __all__ = []\n",
+    "try:\n    __all__ = ['{a}']\n    __all__ += ['{b}']\nexcept NameError:\n    pass\n",
+    "__all__ = ('{a}', '{b}')\n",
+    "__all__ = '{a}', '{b}'\n",
+    "import sys\nif sys.version_info >= (3, 0):\n    __all__ = ('{a}',)\n    __all__ += ('{b}',)\n",
 ]
 
 
@@ -194,7 +199,7 @@ CROSS_TEMPLATES = [
     "import os.path as private_module\n{ALL}def exported_function(first_parameter, second_parameter=None):\n    def nested_function(third_parameter):\n        kept_local = third_parameter\n        return kept_local, first_parameter\n    other_local = nested_function(second_parameter)\n    return other_local\n"
     "EXPORTED_CONSTANT = private_module.join('a', 'b')\nprivate_setting = exported_function(EXPORTED_CONSTANT)\nprint(private_setting, private_setting)\n",
 ]
-CROSS_ALL = ALL_FORMS + ["", "__all__ = ('{a}', '{b}')\n", "__all__ = ['{a}'] + ['{b}']\n"]
+CROSS_ALL = ALL_FORMS + ["", "__all__ = ['{a}'] + ['{b}']\n"]
 
 
 def cross_cases(seed, n):
@@ -206,7 +211,7 @@ def cross_cases(seed, n):
         exported = ['exported_function', 'EXPORTED_CONSTANT'] + (['ExportedClass'] if 'ExportedClass' in t else [])
         a, b = r.sample(exported, 2)
         src = t.replace('{ALL}', form.replace('{a}', a).replace('{b}', b))
-        literal_all = form in ALL_FORMS      # a tuple or a computed list is not 'a literal __all__ list': nothing is expected of those forms
+        literal_all = form in ALL_FORMS      # a computed list is not 'a literal __all__ list': nothing is expected of it
         expect = [a, b] if literal_all else []
         o = {k: False for k in common.ALL_SWITCHES}
         o['rename_globals'] = True
